@@ -588,10 +588,15 @@ def run(ctx):
     tie_acceptance(ctx); ctx.log("acceptance tie done")
     tie_layers(ctx); ctx.log("layer tie done")
     tie_misc(ctx); ctx.log("misc tie done")
+    # forward definitions of the kernels regenerated from the source (translator ties): vector kernels (softmax, log_softmax,
+    # nll, cross-entropy, batch-norm, loss reductions) and scalar kernels (activations, mse, bce, bce-with-logits)
+    from lib.parts import run_parts
+    run_parts(ctx, [("checks.kernels_vector", "run_part", {"props_file": "Props/C06_vector.v"}),
+                    ("checks.kernels_scalar", "run_part", {"props_file": "Props/C06_scalar.v"})])
     ctx.trusted.append("PyTorch (torch.nn.functional / torch.nn) and a loop transcription of the documented formulas as value oracles; used for witnesses only")
-    ctx.notes.append("Theorems cover conv / pool / unfold / fold / layer constructors. Activations, losses, linear and batch-norm statistics are tied by "
-                     "correspondence with a short Q model and judged against torch; softmax/log-softmax/BCE/cross-entropy values and SELU/tanh/sigmoid "
-                     "(transcendental) are outside this check (C09/C14 treat them).")
+    ctx.notes.append("Theorems cover conv / pool / unfold / fold / layer constructors (ConvPool model), the forward definitions of the vector kernels "
+                     "(Props/C06_vector.v) and of the scalar kernels (Props/C06_scalar.v); relu/leaky/mse/nll/linear/batch-norm statistics are additionally "
+                     "tied by correspondence with a short Q model; all values are judged against torch.")
 
 
 FINISH = dict(rule="non-trivial = distinct (op, per-axis geometry, input size) descriptors whose window map is not the identity "
@@ -602,6 +607,15 @@ def replay(ctx, data):
     """Re-run a stored witness on the implementation and judge it again with the oracle."""
     if data.get("kind") != "failing-input":
         print(json.dumps(data.get("broken"), indent=1)); return 1
+    if (data.get("input") or {}).get("oracle") == "c06":
+        from checks import kernels_vector
+        return kernels_vector.replay_part(ctx, data)
+    if str(data.get("site", "")).endswith("/forward") and "op" not in (data.get("input") or {}):
+        try:
+            from checks import kernels_scalar
+            return kernels_scalar.replay_witness(ctx, data)
+        except Exception:
+            pass
     P = data["input"]
     if "op" in P and P["op"] in OPS1 + OPS2:
         obs = _observe(P)
